@@ -1,5 +1,5 @@
 (* C17 - section accessors read back what was set and touch nothing else; clipping as
-   documented. Property theorems only; proofs live in Proofs/Accessors{Base,Simple,Loops}.v
+   documented. Property theorems only; proofs live in Proofs/Accessors{Base,Simple,Loops,RectPx,Grid}.v
    and Proofs/C17Proofs.v.
 
    step_model / run_model (Model/Accessors.v) mirror the accessor methods of gfx.py, map.py,
@@ -8,9 +8,10 @@
    semantics on the five regions, in_contract the documented argument ranges, wf_mem the
    region sizes and byte-ness. *)
 From PV Require Import Base.Prelude Model.Accessors Spec.PlainMem Instances.HoldsC17
-  Proofs.AccessorsBase Proofs.AccessorsSimple Proofs.AccessorsLoops Proofs.C17Proofs Proofs.AccessorsGrid Proofs.HoldsC17Proofs.
+  Proofs.AccessorsBase Proofs.AccessorsSimple Proofs.AccessorsLoops Proofs.AccessorsRectPx Proofs.C17Proofs Proofs.AccessorsGrid
+  Proofs.HoldsC17Proofs.
 
-(* one call: for EVERY well-formed memory and EVERY in-contract call of any of the 18
+(* one call: for EVERY well-formed memory and EVERY in-contract call of any of the 19
    accessors (any id / coordinates / offsets, rows of any number, length and raggedness, any
    amount of overhang across the right and bottom edges, TRANSPARENT pixels) the code's model
    does not raise, returns exactly the value the plain model predicts and leaves exactly the
@@ -114,6 +115,36 @@ Theorem C17_set_rect_cells : forall m g x y rows X Y,
 Proof. exact set_rect_cells. Qed.
 Print Assumptions C17_set_rect_cells.
 
+(* Map.get_rect_pixels (covered by C17_refines / C17_history like every other getter), read pixel
+   by pixel and with no hypothesis on the memory: the picture of the rectangle (x, y, w, h) has
+   8 * h rows of 8 * w pixels, and pixel (X, Y) is pixel (X mod 8, Y mod 8) of the tile in cell
+   (x + X / 8, y + Y / 8) as get_rect_tiles reads it (rect_tile: 0 right of column 127, nothing
+   wraps into the next row). tile_px (Spec/PlainMem.v): tile 0 is empty, any other tile t is the
+   8 x 8 block of the sheet at column (t mod 16) * 8, row (t / 16) * 8. *)
+Theorem C17_rect_pixels_at : forall m g x y w h X Y, 1 <= w -> 1 <= h -> 0 <= X < 8 * w -> 0 <= Y < 8 * h ->
+  let r := spec_get_rect_pixels m g x y w h in
+  zlen r = 8 * h /\ zlen (nth (Z.to_nat Y) r []) = 8 * w /\
+  nth (Z.to_nat X) (nth (Z.to_nat Y) r []) 0 = tile_px g (rect_tile m g x y (X / 8) (Y / 8)) (X mod 8) (Y mod 8).
+Proof. exact rect_pixels_at. Qed.
+Print Assumptions C17_rect_pixels_at.
+
+(* ... and after set_rect_tiles: the tile drawn at a cell is the block's value if the block
+   covers the cell, the cell's old value otherwise, and nothing right of column 127; the pixels
+   come from the sheet as it is after the write (map rows 32-63 are the lower half of the sheet) *)
+Theorem C17_rect_pixels_readback : forall m g x y rows x0 y0 w h X Y,
+  zlen m = 4096 -> zlen g = 8192 -> Forall byte m -> Forall byte g ->
+  in_contract (MapSetRect x y rows) = true -> in_contract (MapGetRectPx x0 y0 w h) = true ->
+  0 <= X < 8 * w -> 0 <= Y < 8 * h ->
+  let st := spec_set_rect (m, g) x y rows in
+  let cx := x0 + X / 8 in let cy := y0 + Y / 8 in
+  nth (Z.to_nat X) (nth (Z.to_nat Y) (spec_get_rect_pixels (fst st) (snd st) x0 y0 w h) []) 0 =
+  tile_px (snd st)
+    (if 127 <? cx then 0
+     else match grid_at no_transparent rows (cx - x) (cy - y) with Some v => v | None => get_cell m g cx cy end)
+    (X mod 8) (Y mod 8).
+Proof. exact rect_pixels_after_set_rect. Qed.
+Print Assumptions C17_rect_pixels_readback.
+
 (* a Map without a Gfx attached (has_gfx = false: "Map must have a Gfx if y > 31"): calls that
    stay inside rows 0-31 behave exactly as with it; cell accesses to rows 32-63 are refused *)
 Theorem C17_refines_nogfx : forall s o, wf_mem s -> in_contract o = true -> no_gfx_ok o = true ->
@@ -125,6 +156,11 @@ Theorem C17_nogfx_refuses : forall s x y v, 32 <= y ->
   step_model false s (MapGet x y) = Err AssertionError /\ step_model false s (MapSet x y v) = Err AssertionError.
 Proof. exact c17_nogfx_refuses. Qed.
 Print Assumptions C17_nogfx_refuses.
+
+(* get_rect_pixels draws from the Gfx: without one it refuses at once *)
+Theorem C17_nogfx_refuses_pixels : forall s x y w h, step_model false s (MapGetRectPx x y w h) = Err AssertionError.
+Proof. exact c17_nogfx_refuses_pixels. Qed.
+Print Assumptions C17_nogfx_refuses_pixels.
 
 (* the instance predicate evaluated (extracted) by the monitor on the implementation's real
    observations: `true` means exactly "did not raise, returned the plain model's value, left
@@ -177,3 +213,31 @@ Example C17_nonvacuous_map :
   map (footprint o RGfx) [4096 + 125; 4096 + 126; 4096 + 127; 4096 + 128] = [false; true; true; false] /\
   snd (spec_step (fst (spec_step ex_mem o)) (MapGetRect 126 31 3 2)) = VRows [[10; 11; 0]; [20; 21; 0]].
 Proof. cbv zeta. repeat split; vm_compute; reflexivity. Qed.
+
+(* get_rect_pixels at the bottom right corner of the map, on a sheet whose bytes are all different
+   (byte i = i mod 256): the row [17; 0; 5] written at cell (126, 63) - the 5 falls off the right
+   edge - then the 3 x 1 rectangle at (126, 63) drawn: tile 17 is the block of the sheet at pixel
+   (8, 8), tile 0 is empty (not sprite 0, whose first row here is 0 0 1 0 2 0 3 0), the cell right
+   of column 127 is empty; the code's model returns the same picture. *)
+Definition ex_mem2 : mem :=
+  {| m_gfx := map (fun i => i mod 256) (upto 8192); m_map := repeat 1 (Z.to_nat 4096); m_gff := repeat 2 (Z.to_nat 256);
+     m_music := repeat 3 (Z.to_nat 256); m_sfx := repeat 4 (Z.to_nat 4352) |}.
+
+Example C17_nonvacuous_pixels :
+  let o1 := MapSetRect 126 63 [[17; 0; 5]; [9]] in
+  let o2 := MapGetRectPx 126 63 3 1 in
+  let s1 := fst (spec_step ex_mem2 o1) in
+  wf_mem ex_mem2 /\ in_contract o1 = true /\ in_contract o2 = true /\
+  snd (spec_step s1 o2) =
+    VRows (map (fun left => left ++ repeat 0 16)
+               [[4; 0; 5; 0; 6; 0; 7; 0]; [4; 4; 5; 4; 6; 4; 7; 4]; [4; 8; 5; 8; 6; 8; 7; 8]; [4; 12; 5; 12; 6; 12; 7; 12];
+                [4; 0; 5; 0; 6; 0; 7; 0]; [4; 4; 5; 4; 6; 4; 7; 4]; [4; 8; 5; 8; 6; 8; 7; 8]; [4; 12; 5; 12; 6; 12; 7; 12]]) /\
+  nth 0 (spec_get_sprite (m_gfx s1) 0 1 1) [] = [0; 0; 1; 0; 2; 0; 3; 0] /\
+  step_model true s1 o2 = Ok (spec_step s1 o2) /\
+  in_contract (MapGetRectPx 126 63 3 2) = false.
+Proof.
+  cbv zeta. assert (W : wf_mem ex_mem2) by (apply wf_memb_spec; vm_compute; reflexivity).
+  split; [exact W|]. split; [reflexivity|]. split; [reflexivity|]. split; [vm_compute; reflexivity|].
+  split; [vm_compute; reflexivity|]. split; [|reflexivity].
+  apply C17_refines; [|reflexivity]. apply (C17_refines ex_mem2 (MapSetRect 126 63 [[17; 0; 5]; [9]]) W). reflexivity.
+Qed.
